@@ -10,6 +10,10 @@ from core import driver_path, enc_str
 
 ALPHA = ["[", "]", "\\", "/", "=", "#", "a", "b", "1", " ", "\n", ":"]
 
+# second exhaustive alphabet: the neighbours of every class boundary of `[a-z#\/]` ('`' 'a'..'z' '{',
+# '"' '#' '$', '.' '/' '0'), an upper-case letter, a stripped control (CR), white space other than ' '
+ALPHA2 = ["[", "]", "\\", "/", "z", "`", "{", "A", '"', "$", ".", "0", "\r", "\t", ":", "="]
+
 F8_SLUG = "markup-same-start-precedence"
 
 # ------------------------------------------------------------------------------------------------
@@ -441,7 +445,7 @@ def check_string(out, s, sort_flag, level=2, normalize=o_normalize):
     if level >= 2 and e != s:
         out.cases.append(("mk_render", [enc_str(e), 0, sort_flag, enc_table(tbl_e), "0:"], ans_e, "escaped", None))
     # ---- the same through Text.from_markup with its defaults (emoji=True)
-    if level >= 2 or ":" in s:
+    if level >= 2 or (level >= 1 and ":" in s):
         ans_t, tbl_t, res_t = real_render(e, True, via_text=True)
         et = emoji_table(e)
         if not et:
@@ -453,7 +457,7 @@ def check_string(out, s, sort_flag, level=2, normalize=o_normalize):
             out.cases.append(("mk_render", [es, 1, sort_flag, enc_table(tbl_m), enc_table(emoji_table(s))], ans_m, "emoji", f"Text.from_markup({s!r})"))
         against_oracle(out, s, res_m, ans_m, True, normalize, pre="from_markup")
     # ---- embedded between complete markup
-    if admissible(s):
+    if level >= 1 and admissible(s):
         out.note("embedded:admissible")
         for A, B in CONTEXTS:
             ansx, _, resx = real_render(A + e + B, False)
@@ -478,18 +482,18 @@ def check_string(out, s, sort_flag, level=2, normalize=o_normalize):
 # ------------------------------------------------------------------------------------------------
 # exhaustive enumeration, sharded by prefix
 # ------------------------------------------------------------------------------------------------
-def shard_strings(prefix, maxlen):
-    """all strings over ALPHA of length <= maxlen that start with `prefix` (the prefix itself included)"""
+def shard_strings(prefix, maxlen, alpha=ALPHA):
+    """all strings over `alpha` of length <= maxlen that start with `prefix` (the prefix itself included)"""
     yield prefix
     for n in range(1, maxlen - len(prefix) + 1):
-        for t in itertools.product(ALPHA, repeat=n):
+        for t in itertools.product(alpha, repeat=n):
             yield prefix + "".join(t)
 
 
-def shards(maxlen, plen=2):
+def shards(maxlen, plen=2, alpha=ALPHA):
     """prefixes partitioning all strings of length <= maxlen"""
     out = [("short", maxlen)]
-    for t in itertools.product(ALPHA, repeat=plen):
+    for t in itertools.product(alpha, repeat=plen):
         out.append(("".join(t), maxlen))
     return out
 
@@ -533,13 +537,14 @@ def work_shard(job):
     """job = (prefix|'short', maxlen, plen, sort_flag, local_diff, full_upto)
     Strings longer than `full_upto` get the full treatment only when `interesting`; the others get
     the direct evaluation (level 0)."""
-    prefix, maxlen, plen, sort_flag, local_diff, full_upto = job
+    prefix, maxlen, plen, sort_flag, local_diff, full_upto = job[:6]
+    alpha = ALPHA2 if (len(job) > 6 and job[6] == 2) else ALPHA
     install_recorder()
     out = Out()
     if prefix == "short":
-        strings = [""] + ["".join(t) for n in range(1, plen) for t in itertools.product(ALPHA, repeat=n)]
+        strings = [""] + ["".join(t) for n in range(1, plen) for t in itertools.product(alpha, repeat=n)]
     else:
-        strings = shard_strings(prefix, maxlen)
+        strings = shard_strings(prefix, maxlen, alpha)
     n = 0
     for s in strings:
         n += 1
